@@ -14,8 +14,9 @@ def cstr : Bytes → Bytes
 /-- `xisspace` in the C locale: SP, HT, LF, VT, FF, CR -/
 def isSpace (c : UInt8) : Bool := c == 32 || (9 ≤ c && c ≤ 13)
 
-/-- membership in `delim[2]` = `" ?,\t\r\n"` where `?` is overwritten with `del` -/
-def isLead (del c : UInt8) : Bool := c == 32 || c == del || c == 44 || c == 9 || c == 13 || c == 10
+/-- membership in `delim[2]` = `" ?,\t\r\n\v\f"` where `?` is overwritten with `del` (VT and FF since /repo 43aac5c:
+"all xisspace() characters, which the rtrim below removes") -/
+def isLead (del c : UInt8) : Bool := c == 32 || c == del || c == 44 || c == 9 || c == 13 || c == 10 || c == 11 || c == 12
 
 /-- `*pos += strspn(*pos, delim[2])`: skip leading whitespace and delimiters -/
 def skipLead (del : UInt8) : Bytes → Bytes
